@@ -178,28 +178,16 @@ theorem undo_step (t : Tree) (x : Ren) (R' : List Ren) (g : Guards t (x :: R'))
       have := pre_of_pre_finalPath g.lo hdd hfx (hfk e he) h
       rw [this] at hpre; cases hpre
 
-def NoLinks (t : Tree) (R : List Ren) : Prop :=
-  ∀ r ∈ R, ∀ tg, lookup t r.path ≠ some (.link tg)
-
-theorem existsF_of_nonlink {t : Tree} {p : Path} {n : Node} (h : lookup t p = some n)
-    (hn : ∀ tg, n ≠ .link tg) : existsF t p = true := by
-  unfold existsF
-  rw [h]
-  cases n with
-  | file c m => rfl
-  | dir m => rfl
-  | link tg => exact absurd rfl (hn tg)
-
 /-- a loop of undo STEP 1 over `S`, the renames `K` staying in force -/
-theorem renameBack_loop (t : Tree) (K : List Ren) : ∀ (S : List Ren), Guards t (S ++ K) → NoLinks t S →
+theorem renameBack_loop (t : Tree) (K : List Ren) : ∀ (S : List Ren), Guards t (S ++ K) →
     S.Pairwise (fun x y => pre y.path x.path = true → y.path = x.path) →
     (∀ x ∈ S, NoProperPrefix K x.path) →
     renameBack (moveAll (S ++ K) t) (S.map mp) = (moveAll K t, none) := by
   intro S
   induction S with
-  | nil => intro _ _ _ _; rfl
+  | nil => intro _ _ _; rfl
   | cons x S ih =>
-    intro g hnl hord hK
+    intro g hord hK
     have hc := List.pairwise_cons.1 hord
     have hnp : NoProperPrefix (S ++ K) x.path := by
       intro y hy hpre
@@ -210,13 +198,12 @@ theorem renameBack_loop (t : Tree) (K : List Ren) : ∀ (S : List Ren), Guards t
     obtain ⟨ex, hex, hexp⟩ := key_of_source g (List.mem_cons_self (a := x) (l := S ++ K))
     obtain ⟨na, hna⟩ := lookup_some_of_mem t x.path ⟨ex, hex, hexp⟩
     have hex2 : guardExists (moveAll (x :: (S ++ K)) t) x.newPath = true := by
-      unfold guardExists
-      apply existsF_of_nonlink (h2.trans hna)
-      intro tg htg
-      exact hnl x List.mem_cons_self tg (by rw [hna, htg])
-    simp only [List.map_cons, List.cons_append, mp, renameBack, hex2, if_true, h1]
-    exact ih g.tail (fun r hr => hnl r (List.mem_cons_of_mem _ hr)) hc.2
-      (fun y hy => hK y (List.mem_cons_of_mem _ hy))
+      unfold guardExists exists_
+      rw [h2.trans hna]; simp
+    have := ih g.tail hc.2 (fun y hy => hK y (List.mem_cons_of_mem _ hy))
+    unfold renameBack at this ⊢
+    simp only [List.map_cons, List.cons_append, mp, renameBackWith, hex2, if_true, h1]
+    exact this
 
 -- sorting: `sortM` on mappings is `sortBy` on the renames ----------------------------------------------
 
